@@ -520,6 +520,33 @@ impl Sim {
         // wrong max_cut, never-existing.
         let all: BTreeSet<CmdId> = self.g.nodes.keys().copied().collect();
         let Some(id) = self.resolve(sel, r, &all, None) else { return };
+        // The API contract of the cache is that the caller records only what the peer really
+        // holds (addresses it sent). An address the peer does not hold is still a legitimate
+        // *test input* for the update rule (C20), but it must not stay in the cache the sync
+        // sessions use, or the requester would stop sampling at a command the peer lacks (C16's
+        // precondition). Such inputs are applied to a copy of the cache that is then discarded.
+        let truthful = !self.crashed[peer] && peer != r && bogus == 0 && self.committed(peer).contains(&id);
+        if !truthful {
+            let gid = self.gid.expect("gid");
+            let stash = with_rep!(&mut self.reps[r], rep => {
+                let old = take_cache(&mut rep.caches, peer);
+                let mut copy = PeerCache::new();
+                if let Ok(st) = rep.client.provider().get_storage(gid) {
+                    for h in old.heads() {
+                        let _ = copy.add_command(st, h.address(), &mut rep.buffers.traversal.primary);
+                    }
+                }
+                rep.caches.insert(peer, copy);
+                old
+            });
+            self.step_cache_add_inner(r, peer, id, bogus);
+            with_rep!(&mut self.reps[r], rep => { rep.caches.insert(peer, stash); });
+            return;
+        }
+        self.step_cache_add_inner(r, peer, id, bogus);
+    }
+
+    fn step_cache_add_inner(&mut self, r: usize, peer: usize, id: CmdId, bogus: u8) {
         let mut addr = self.addr(&id);
         match bogus {
             1 => addr.max_cut = aranya_runtime::MaxCut::new(addr.max_cut.get() + 1),
